@@ -66,6 +66,10 @@ func main() {
 		childMain(os.Args[2])
 		return
 	}
+	if len(os.Args) > 2 && os.Args[1] == oneFlag {
+		oneMain(os.Args[2])
+		return
+	}
 	setup()
 	if len(os.Args) > 1 && os.Args[1] == "-dump" {
 		for _, iface := range regOrder {
